@@ -36,8 +36,9 @@ type Obligation struct {
 	ModelVars []ModelVar // names whose values are wanted in a counterexample
 
 	// results
-	Result SolverResult
-	Mode   string
+	Result  SolverResult
+	Mode    string
+	Retried bool
 }
 
 type ModelVar struct {
